@@ -365,7 +365,8 @@ def oracle_only_findings(case, impl):
     if "err" in impl and impl["err"] not in ("TypeError", "ValueError", "InvalidStructureErr"):
         kind = "decimal" if "decs" in impl else top_kind(case)
         if kind == "decimal":
-            kind += ":beyond-context" if "DivisionImpossible" in impl.get("msg", "") else ":nan-or-infinity"
+            kind += (":beyond-context" if "DivisionImpossible" in impl.get("msg", "") else
+                     ":snan" if "sNaN" in json.dumps(case["kw"]) else ":nan-or-infinity")
         fails.append((f"error-class:{kind}:{impl['err']}", f"rejection raised {impl['err']} (not TypeError/ValueError) for "
                       + json.dumps(case["kw"], ensure_ascii=False)[:200] + f": {impl.get('msg')}"))
     return fails
